@@ -144,7 +144,7 @@ DivNum(q, k, mode) == IF k.a = RZero THEN ErrV("ZeroDivisionError")
 (* product involving them is undefined.                                     *)
 DimAdd(d1, d2, s) == [b \in BaseTypes |-> d1[b] + s * d2[b]]
 DimMul(d1, n)     == [b \in BaseTypes |-> n * d1[b]]
-Scalable(t) == ConvKind(t) = "scale"
+Scalable(t) == t \in TypeNames /\ ConvKind(t) = "scale"
 \* result of combining value v (in reference units) with dimension dm;
 \* rounded (once) only when a quantity takes part (unit op unit returns a
 \* bare (factor, unit) pair)
